@@ -978,7 +978,11 @@ def run_uc(case):
 
     def stop(tm):
         tr_ = probe.trace
-        return (tm.k > n + 100 and prod.done() and len(tr_) > 60 and all(not r_[3] and r_[6] for r_ in tr_[-40:]))
+        if not (tm.k > n + 100 and prod.done() and len(tr_) > 60 and all(not r_[3] and r_[6] for r_ in tr_[-40:])):
+            return False
+        # ... and every byte software wrote while the FIFO was not full has come out at the PHY (a byte may still be inside the
+        # two-clock FIFO while both ends look empty)
+        return len(cons.got) >= sum(1 for r_ in tr_ if r_[0] and not r_[2]) or tm.k > len(inst) - 8
 
     tm, reg = cdc.run(top, {"sys": [prog, probe], "b": [prod, cons]}, inst, ["sys", "b"], case["meta"], stop=stop)
     cyc = tm.k
@@ -1009,6 +1013,10 @@ def run_uc(case):
     if len(sent) > len(accepted):
         return bad("tx-spurious", "%s: the PHY got %d bytes, software wrote %d while the FIFO was not full" % (ctx, len(sent), len(accepted)),
                    key="c05:uart-tx", cls=cls, cycles=cyc)
+    if (len(popped) < len(pushed) or len(sent) < len(accepted) or not prod.done()) and tm.k < len(inst) - 8:
+        # the run ended before everything had drained (the bench's end-of-run detection, not the design): the prefixes compared
+        # above are all this case can say - counted, not judged
+        return ok(nt=False, cls=cls + ["ended-before-drained"], cycles=cyc)
     if len(popped) < len(pushed) or len(sent) < len(accepted) or not prod.done():
         return bad("termination", "%s: %d of %d received bytes handed in, %d popped; %d written, %d reached the PHY (%d instants)" %
                    (ctx, len(pushed), len(case["rx"]), len(popped), len(accepted), len(sent), cyc), key="c05:uart-hang", cls=cls, cycles=cyc)
